@@ -387,7 +387,7 @@ class TokenAwarePolicy(LoadBalancingPolicy):
 
                 for host in child.make_query_plan(keyspace, query):
                     # skip if we've already listed this host
-                    if host not in replicas or \
+                    if host not in replicas or not host.is_up or \
                             child.distance(host) == HostDistance.REMOTE:
                         yield host
 
